@@ -330,10 +330,11 @@ Definition op_guard3 (O : oracle) (s : gfa) (o : op) : Prop :=
 
 Theorem step_inv3 O s o s' : Inv s -> op_guard3 O s o -> step O s o = Ok s' -> Inv s'.
 Proof.
-  intros Hi Hg Hs. destruct o as [t|n|a b].
+  intros Hi Hg Hs. destruct o as [t|n|a b|t].
   - apply (step_inv O s (OAdd t) s' Hi Hg Hs).
   - apply (step_inv O s (ORm n) s' Hi Hg Hs).
   - apply (rename_inv s a b s' Hi Hg Hs).
+  - apply (step_inv O s (ORmLine t) s' Hi Hg Hs).
 Qed.
 
 Fixpoint guards3_hold (O : oracle) (s : gfa) (ops : list op) : Prop :=
